@@ -21,6 +21,8 @@ from ..core import astutil as au
 from ..core.cfg import CFG
 from ..core.report import AnalysisError
 from ..core.tables import FiniteEval
+from ..core.canon import ct
+from ..core.template import same
 from . import c03, c04
 from .c01 import _Sub, level0_prune
 
@@ -223,8 +225,8 @@ def rule_H3(ctx, sm):
               'is ranked only if it passes level+1', ctx.where(sm, c),
               sample={'keywords': kws})
     gs = au.guards_of(c, mg)
-    bottom = [(t, pol) for t, pol in gs if ast.unparse(t).replace(' ', '')
-              == f'{N.level}=={var}.clevel[{var}.sc_dir]']
+    PRED = f'{N.level} == {var}.clevel[{var}.sc_dir]'
+    bottom = [(t, pol) for t, pol in gs if same(PRED, t) is not None]
     ctx.check('C05.H3.ranking', 'multigrid recursive call: bottom guard',
               len(bottom) == 1 and bottom[0][1] is False,
               'the recursive call is not confined to levels above the '
@@ -242,12 +244,12 @@ def rule_H3(ctx, sm):
               f'recursion runs on {args[:3]}, restriction returned {tg}',
               ctx.where(sm, c))
     # bottom level: exactly the same predicate picks cycmax=1 and coarse solve
-    tests = [ast.unparse(n.test).replace(' ', '') for n in ast.walk(mg)
+    tests = [n.test for n in ast.walk(mg)
              if isinstance(n, (ast.If, ast.IfExp)) and
              'clevel' in ast.unparse(n.test)]
-    pred = f'{N.level}=={var}.clevel[{var}.sc_dir]'
     ctx.check('C05.H3.ranking', 'multigrid bottom predicate used twice',
-              tests.count(pred) >= 2 and set(tests) == {pred},
+              len(tests) >= 2 and all(same(PRED, t) is not None
+                                      for t in tests),
               'the coarsest-level predicate is not the same in the cycle '
               'setup and in the cycle body', ctx.where(sm, mg))
     # single writers of clevel / sc_dir / lr_dir
@@ -297,8 +299,8 @@ def rule_H4_H5(ctx, sm):
         st = au.enclosing_stmt(sites[0])
         gs = au.guards_of(st, mg)
         lvl = [(ast.unparse(t).replace(' ', ''), pol) for t, pol in gs]
-        at0 = (f'{L}>0', False) in lvl or (f'{L}==0', True) in lvl
-        guard_ok = all(t in (f'{L}>0', f'{L}==0', f'{var}.{cyc}')
+        at0 = (ct(f'{L}>0'), False) in lvl or (ct(f'{L}==0'), True) in lvl
+        guard_ok = all(t in (ct(f'{L}>0'), ct(f'{L}==0'), f'{var}.{cyc}')
                        for t, _ in lvl)
         ctx.check('C05.H4.once', f'multigrid: next({var}.{cyc}) at level 0',
                   at0 and guard_ok, f'advance of {cyc} is guarded by {lvl}: '
@@ -315,7 +317,7 @@ def rule_H4_H5(ctx, sm):
                'residual(' in ast.unparse(n.value) and au.enclosing(
                    n, ast.While) is wh and au.guards_of(n, mg)[-1:] ==
                [g for g in gs if ast.unparse(g[0]).replace(' ', '') in (
-                   f'{L}>0', f'{L}==0')][-1:]]
+                   ct(f'{L}>0'), ct(f'{L}==0'))][-1:]]
         term = [n for n in ast.walk(mg) if isinstance(n, ast.If) and
                 '_terminate(' in ast.unparse(n.test)]
         ok = bool(res) and len(term) == 1 and \
@@ -347,17 +349,16 @@ def rule_H4_H5(ctx, sm):
               len(incs) == 1 and not conts, 'the local cycle counter is not '
               'advanced unconditionally once per iteration',
               ctx.where(sm, wh))
-    cond = ast.unparse(wh.test).replace(' ', '')
     ctx.check('C05.H5.progress', 'multigrid: loop condition',
-              cond in (f'{L}==0or({L}>0and{N.it}<{N.cycmax})',
-                       f'{L}==0or{L}>0and{N.it}<{N.cycmax}',
-                       f'{L}==0or{N.it}<{N.cycmax}'),
+              same(f'{L} == 0 or ({L} > 0 and {N.it} < {N.cycmax})', wh.test)
+              is not None or
+              same(f'{L} == 0 or {N.it} < {N.cycmax}', wh.test) is not None,
               f'cycle loop condition `{ast.unparse(wh.test)}` does not bound '
               'coarse-level cycles by cycmax', ctx.where(sm, wh))
     term = sm.func('_terminate')
     tps = au.params(term)
     arms = [n for n in ast.walk(term) if isinstance(n, ast.If) and
-            ast.unparse(n.test).replace(' ', '') == f'{tps[3]}=={tps[0]}.maxit']
+            same(f'{tps[3]} == {tps[0]}.maxit', n.test) is not None]
     trets = [n for n in ast.walk(term) if isinstance(n, ast.Return)]
     fin = trets[0].value.id if len(trets) == 1 and isinstance(
         trets[0].value, ast.Name) else 'finished'
@@ -456,7 +457,8 @@ def rule_H6_H7(ctx, sm):
     cy = [n for n in ast.walk(whs) if isinstance(n, ast.AugAssign) and
           ast.unparse(n).replace(' ', '') == f'{N.cyc}+=1']
     ok = len(cy) == 1 and [ast.unparse(t).replace(' ', '') for t, p in
-                           au.guards_of(cy[0], mg) if p] == [f'{N.level}>0']
+                           au.guards_of(cy[0], mg) if p] == [
+                               ct(f'{N.level}>0')]
     ctx.check('C05.H7.cycmax', 'multigrid: cyc advanced on coarse levels',
               ok, 'coarse-level cycle counter is not advanced once per '
               'coarse cycle', ctx.where(sm, whs))
